@@ -879,7 +879,16 @@ func (x *Exec) mapInitEmpty(st *State, mt *types.Map, r Term) {
 	ks := x.mapKeySort(mt)
 	d := x.mapDom(st, mt)
 	x.mapSet(st, "MapD:"+typeKey(mt), mkStore(d, r, constArray(arrSortK(ks, sBool), tFalse)))
-	st.assume(mkEq(app("maplen", sInt, r), tZero))
+	st.assume(mkEq(x.mapLen(st, mt, r), tZero))
+}
+
+// mapLen is len(m): a function of the map's current key set (the domain array), so that it changes with every
+// update and is forgotten whenever the domain is.
+func (x *Exec) mapLen(st *State, mt *types.Map, m Term) Term {
+	ks := x.mapKeySort(mt)
+	name := quoteSym("maplen:" + ks)
+	x.pre.declare(name, "(declare-fun "+name+" ("+arrSortK(ks, sBool)+") Int)")
+	return app(name, sInt, mkSelect(x.mapDom(st, mt), m))
 }
 
 func (x *Exec) mapLookup(st *State, mt *types.Map, m Term, key Term) (Value, Term) {
@@ -929,16 +938,15 @@ func (x *Exec) doMapUpdate(st *State, u *ssa.MapUpdate) {
 	}
 	d := x.mapDom(st, mt)
 	was := mkSelect(mkSelect(d, m.one()), k)
+	lenBefore := x.mapLen(st, mt, m.one())
 	x.mapSet(st, "MapD:"+typeKey(mt), mkStore(d, m.one(), mkStore(mkSelect(d, m.one()), k, tTrue)))
+	st.assume(mkEq(x.mapLen(st, mt, m.one()), mkIte(was, lenBefore, mkArith("+", lenBefore, tOne))))
+	st.assume(mkCmp(">=", lenBefore, tZero))
 	v = coerce(v, mt.Elem())
 	for j, lf := range flatten(mt.Elem()) {
 		cur := x.mapVal(st, mt, lf)
 		x.mapSet(st, "MapV:"+typeKey(mt)+":"+lf.Path, mkStore(cur, m.one(), mkStore(mkSelect(cur, m.one()), k, v.L[j])))
 	}
-	_ = was
-	nl := x.fresh(st, "maplen", sInt)
-	st.assume(mkEq(nl, mkIte(was, app("maplen", sInt, m.one()), mkArith("+", app("maplen", sInt, m.one()), tOne))))
-	x.note("len() of a map after updates is not tracked")
 }
 
 func visitedName(r *ssa.Range) string { return "!visited." + r.Name() }
